@@ -29,23 +29,30 @@ fn level_of(check: &str) -> &'static str {
 
 fn worker(check: &str, tier: Tier, i: usize, n: usize, from: usize, only: Option<&str>) {
     vcore::env::install_panic_hook();
-    let all = universe::all();
-    let mine: Vec<&vcore::Entry> = all.iter().enumerate().filter(|(k, e)| k % n == i && only.map_or(true, |o| o == e.id)).map(|(_, e)| e).collect();
+    enum Item { Ty(vcore::Entry), Seq(&'static str, Box<dyn seqs::SeqOps>) }
+    let all: Vec<Item> = if check == "C16" { seqs::all().into_iter().map(|(id, o)| Item::Seq(id, o)).collect() } else { universe::all().into_iter().map(Item::Ty).collect() };
+    let id_of = |it: &Item| match it { Item::Ty(e) => e.id, Item::Seq(id, _) => id };
+    let mine: Vec<&Item> = all.iter().enumerate().filter(|(k, e)| k % n == i && only.map_or(true, |o| o == id_of(e))).map(|(_, e)| e).collect();
     let out = std::io::stdout();
     let mut cx = Cx::new(check, tier);
     for (k, e) in mine.iter().enumerate().skip(from) {
         {
             let mut o = out.lock();
-            writeln!(o, "{}", json!({"t": "begin", "k": k, "type_id": e.id})).unwrap();
+            writeln!(o, "{}", json!({"t": "begin", "k": k, "type_id": id_of(e)})).unwrap();
             o.flush().unwrap();
         }
-        cx.type_id = e.id.to_string();
-        if let Err(p) = vcore::env::guarded(|| vcore::run_check(e.ops.as_ref(), check, &mut cx)) { cx.machinery_error(format!("checker panicked: {}", p)); }
+        cx.type_id = id_of(e).to_string();
+        let r = match e {
+            Item::Ty(e) => vcore::env::guarded(|| vcore::run_check(e.ops.as_ref(), check, &mut cx)),
+            Item::Seq(_, o) => vcore::env::guarded(|| seqs::c16(o.as_ref(), &mut cx)),
+        };
+        if let Err(p) = r { cx.machinery_error(format!("checker panicked: {}", p)); }
         let v = cx.flush_type();
         let mut o = out.lock();
         writeln!(o, "{}", v).unwrap();
         o.flush().unwrap();
     }
+    vcore::checks3::cleanup_scratch();
     let mut o = out.lock();
     writeln!(o, "{}", json!({"t": "done"})).unwrap();
 }
